@@ -354,7 +354,7 @@ class Built(object):
         if 'xmldata' in t:
             return self.to_spyne(t['xmldata'], v)
         if 'prim' in t and t['prim'] == 'ByteArray':
-            return [v] if isinstance(v, bytes) else list(v)
+            return chunked(v) if isinstance(v, bytes) else list(v)
         return v
 
     def from_spyne(self, t, o):
@@ -398,6 +398,26 @@ class Built(object):
         td = self.typedefs[tname]
         out = list(self.all_fields(td['base'])) if td['base'] else []
         return out + [(fn, ft) for fn, ft in td['fields']]
+
+
+def chunked(v):
+    """the native form of a ByteArray is a sequence of byte chunks; which chunking is used is derived from the value itself
+    so that a case replays identically: one chunk, or several chunks whose lengths are not multiples of three, sometimes with
+    an empty chunk in the middle"""
+    n = len(v)
+    if n < 2 or n % 4 == 0:
+        return [v]
+    if n % 4 == 1:
+        return [v[:n // 2], v[n // 2:]]
+    if n % 4 == 2:
+        return [v[:1], b'', v[1:]]
+    out, i, k = [], 0, 0
+    sizes = (1, 2, 4, 5, 7)
+    while i < n:
+        out.append(v[i:i + sizes[k % 5]])
+        i += sizes[k % 5]
+        k += 1
+    return out
 
 
 def all_fields(ir, tname):
